@@ -71,15 +71,24 @@ fn sink_body<E: Encodable>(e: &E, script: Vec<WItem>) -> (Result<(), io::ErrorKi
     (r, w.written, e.encode_len())
 }
 
+/// the caller-held poll state holds a body buffer of at most 1 MiB (cloning it is cheap)
+pub fn state_is_small<H>(state: &mqtt_proto::GenericPollPacketState<H>) -> bool {
+    match state {
+        mqtt_proto::GenericPollPacketState::Header(_) => true,
+        mqtt_proto::GenericPollPacketState::Body(b) => b.buf.len() <= (1 << 20),
+    }
+}
+
 macro_rules! poll_impl {
     ($modp:ident, $b:expr, $sched:expr, $term:expr, $ef:ident) => {{
         use mqtt_proto::$modp::{PollPacket, PollPacketState};
         let mut state = PollPacketState::default();
         let npend_sched = $sched.iter().filter(|s| !matches!(s, Sched::Chunk(_) | Sched::InitChunk(_))).count();
         let mut rd = ScriptReader::new($b.to_vec(), $sched, $term);
-        let waker = std::task::Waker::noop();
-        let mut cx = std::task::Context::from_waker(waker);
+        let (flag, waker) = crate::sio::task_waker();
+        let mut cx = std::task::Context::from_waker(&waker);
         let mut pend = 0usize;
+        let mut lost = false;
         let res = 'outer: loop {
             let mut fut = PollPacket::new(&mut state, &mut rd);
             loop {
@@ -90,10 +99,15 @@ macro_rules! poll_impl {
                         if pend > 1_000_000 {
                             panic!("poll spins");
                         }
+                        if !crate::sio::woken(&flag) {
+                            lost = true;
+                        }
                         drop(fut);
                         if rd.drop_requested {
                             rd.drop_requested = false;
-                            state = state.clone(); // (a caller may continue from a copy of the state)
+                            if state_is_small(&state) {
+                                state = state.clone(); // (a caller may continue from a copy of the state)
+                            }
                         }
                         continue 'outer;
                     }
@@ -103,6 +117,7 @@ macro_rules! poll_impl {
         let _ = npend_sched;
         PollOut {
             res: match res {
+                _ if lost => Err(ErrInfo { text: crate::sio::LOST_WAKEUP.to_string(), is_eof: false, io_kind: None }),
                 Ok((t, body, p)) => Ok((t, body.into_iter().map(|b| unsafe { b.assume_init() }).collect(), p)),
                 Err(e) => Err($ef(&e)),
             },
